@@ -502,7 +502,7 @@ func TestC13(t *testing.T) {
 		}()
 	}
 	wg.Wait()
-	code := run.Finish("echo requests built by the independent codec are injected one at a time into a real stack in virtual time and the tap is read after quiescence: exactly one reply, from the pinged address to the requester, with the same identifier, sequence number and payload and a verifying checksum (IPv4: RFC 1071 over the message; IPv6: with pseudo-header); identifiers and sequence numbers sweep the 16-bit space in strides plus boundaries, payload lengths cover every length 0..MTU over the sweep, IPv4 requests also arrive as 2-5 fragments in any order (payloads up to 4 KiB); destinations: first and second own address, an on-link foreign address, an unassigned address (no reply allowed). Bursts of 9 (all must be answered) and 50 (replies must be a sub-multiset of requests, each at most once). Stalled-transmit overflow followed by removal of the pinged address (must fall silent). A labelled sub-case delivers the request in several odd-sized views. distinct = (family, destination class, length bucket, fragments, view size, id/seq class)",
+	code := run.Finish("echo requests built by the independent codec are injected one at a time into a real stack in virtual time and the tap is read after quiescence: exactly one reply, from the pinged address to the requester, with the same identifier, sequence number and payload and a verifying checksum (IPv4: RFC 1071 over the message; IPv6: with pseudo-header); identifiers and sequence numbers sweep the 16-bit space in strides plus boundaries, payload lengths cover every length 0..MTU over the sweep, IPv4 requests also arrive as 2-5 fragments in any order (payloads up to 4 KiB); destinations: first and second own address, an on-link foreign address, an unassigned address (no reply allowed). Bursts of 9 (all must be answered) and 50 (replies must be a sub-multiset of requests, each at most once). Stalled-transmit overflow followed by removal of the pinged address (must fall silent). A labelled sub-case delivers the request in several odd-sized views. distinct = (family, destination class, length bucket, fragments, view size, id/seq class) Later additions: Requests with 1-200 bytes of link padding; every third child on a checksum-offload link. Fragmented requests behind the incomplete fragments of another request of the same host.",
 		[]string{"replies are attributed by (family, id, seq); payloads are id/seq-coded", "the ICMPv4 reply is produced by a separate goroutine: the bubble is quiesced before the tap is read"})
 	os.Exit(code)
 }
